@@ -2,7 +2,7 @@ import CyVerif.Lemmas.C34Map
 /-! Soundness of the type mapper w.r.t. the documented rule, case by case on the argument class. -/
 namespace CyVerif.C34
 
-variable {below : Nat → Bool} {s ms : List (Ty × Nat)} {an : Bool} {i : Nat}
+variable {below : Ty → Bool} {s ms : List (Ty × Nat)} {an : Bool} {i : Nat}
 
 theorem biggest_nil {K : Ty → Bool} (h : ∀ q ∈ ms, K q.1 = false) : biggest K ms = [] := by
   simp only [biggest, List.filter_eq_nil_iff]
